@@ -12,6 +12,7 @@ import (
 	"path/filepath"
 	"regexp"
 	"runtime/debug"
+	"runtime/pprof"
 	"sort"
 	"strings"
 	"sync"
@@ -390,8 +391,14 @@ func RunCheck(t *testing.T, chk Check) int {
 				}
 				runMu.Unlock()
 				if stuck != "" {
+					dump := filepath.Join(*FlagVerif, "replays", fmt.Sprintf("%s_stuck_goroutines.txt", chk.Prop))
+					os.MkdirAll(filepath.Dir(dump), 0o755)
+					if f, err := os.Create(dump); err == nil {
+						pprof.Lookup("goroutine").WriteTo(f, 2)
+						f.Close()
+					}
 					rmu.Lock()
-					res.inconcl = append(res.inconcl, fmt.Sprintf("case %s did not finish within %v of wall-clock time (watchdog); remaining cases not executed", stuck, caseLimit))
+					res.inconcl = append(res.inconcl, fmt.Sprintf("case %s did not finish within %v of wall-clock time (watchdog; goroutine dump in %s); remaining cases not executed", stuck, caseLimit, dump))
 					rmu.Unlock()
 					code := finalize()
 					os.Exit(code)
@@ -418,7 +425,11 @@ func RunCheck(t *testing.T, chk Check) int {
 			cs.Run(c)
 		}
 		if cs.Bubble {
-			synctest.Test(t, func(t *testing.T) { c.T = t; body() })
+			// own subtest: synctest.Test ends the calling goroutine (FailNow) when the bubbled test failed, e.g.
+			// "race detected during execution of test"; the worker must survive that
+			if ok := t.Run("b", func(t *testing.T) { synctest.Test(t, func(t *testing.T) { c.T = t; body() }) }); !ok {
+				c.Count("bubble_tests_failed", 1)
+			}
 		} else {
 			body()
 		}
@@ -447,15 +458,126 @@ func RunCheck(t *testing.T, chk Check) int {
 		close(ch)
 		wg.Wait()
 	})
-	if chk.Finish != nil {
+	if chk.Finish != nil || raceEnabled {
 		c := &Ctx{Check: chk.Prop, ID: "finish", Seed: seed, Tier: tier, T: t, Rng: rand.New(rand.NewSource(seed)),
 			counters: map[string]int64{}, nontrivial: map[string]bool{}}
-		chk.Finish(c)
+		if chk.Finish != nil {
+			chk.Finish(c)
+		}
+		if raceEnabled && chk.Prop != "C14" {
+			// every check built with the race detector reads its reports: the workload of this check produced a
+			// schedule on which two goroutines touched the same state without synchronisation
+			ReportRaces(c, chk.Prop)
+		}
 		res.cases--
 		merge(c)
 	}
 	close(stopWatch)
 	return finalize()
+}
+
+// RaceReport is one "WARNING: DATA RACE" block of a race-detector log.
+type RaceReport struct {
+	Text       string
+	RepoFrames []string // first repository frame of each stack section
+	Owners     []string // "repo" / "harness" / "" per stack section: whose code made the access
+	Harness    bool
+}
+
+// ParseRaceLogs reads the race-detector logs (GORACE log_path=<dir>/race) written by this process.
+func ParseRaceLogs(dir string) []RaceReport {
+	files, _ := filepath.Glob(filepath.Join(dir, "race.*"))
+	var out []RaceReport
+	for _, f := range files {
+		b, err := os.ReadFile(f)
+		if err != nil {
+			continue
+		}
+		blocks := strings.Split(string(b), "==================")
+		for _, bl := range blocks {
+			if !strings.Contains(bl, "WARNING: DATA RACE") {
+				continue
+			}
+			rep := RaceReport{Text: bl}
+			// sections: "Read at", "Previous write at", "Write at", "Previous read at" ... each followed by a stack
+			secs := regexp.MustCompile(`(?m)^(Read|Write|Previous read|Previous write|Atomic.*) at .*$`).FindAllStringIndex(bl, -1)
+			for i, s := range secs {
+				end := len(bl)
+				if i+1 < len(secs) {
+					end = secs[i+1][0]
+				}
+				if g := strings.Index(bl[s[1]:end], "\nGoroutine "); g >= 0 {
+					end = s[1] + g
+				}
+				stack := bl[s[1]:end]
+				// owner of the access = the innermost frame that is repository or harness code (frames of the
+				// standard library and of third-party modules above it act on its behalf)
+				frame, owner := "", ""
+				for _, line := range strings.Split(stack, "\n") {
+					line = strings.TrimSpace(line)
+					if owner == "" && strings.HasPrefix(line, "verif/harness/") {
+						owner = "harness"
+					}
+					if strings.HasPrefix(line, "github.com/DataDog/datadog-traceroute/") {
+						if owner == "" {
+							owner = "repo"
+						}
+						frame = strings.TrimPrefix(line, "github.com/DataDog/datadog-traceroute/")
+						if p := strings.LastIndex(frame, "("); p > 0 {
+							frame = frame[:p]
+						}
+						break
+					}
+				}
+				rep.RepoFrames = append(rep.RepoFrames, frame)
+				rep.Owners = append(rep.Owners, owner)
+			}
+			// a report is the repository's when at least one of the two accesses is made by repository code (or by a
+			// library on its behalf); two harness-owned accesses are a harness race even below repository frames
+			n := 0
+			for i, fr := range rep.RepoFrames {
+				if fr != "" && rep.Owners[i] == "repo" {
+					n++
+				}
+			}
+			rep.Harness = n == 0
+			out = append(out, rep)
+		}
+	}
+	return out
+}
+
+// ReportRaces turns the race-detector reports of this process into verdicts: a report with a repository frame in
+// one of its stacks is a violation of C14 (de-duplicated by the pair of first repository frames), a report without
+// any makes the run inconclusive (a race inside the harness). workload names the check whose workload produced the
+// schedule when that is not C14 itself.
+func ReportRaces(c *Ctx, workload string) {
+	reps := ParseRaceLogs(*FlagOut)
+	seen := map[string]bool{}
+	harnessOnly := 0
+	for _, r := range reps {
+		if r.Harness {
+			harnessOnly++
+			continue
+		}
+		fr := append([]string(nil), r.RepoFrames...)
+		sort.Strings(fr)
+		sig := "race/" + strings.Join(fr, "|")
+		if seen[sig] {
+			continue
+		}
+		seen[sig] = true
+		msg := "data race reported by the race detector between " + strings.Join(fr, " and ")
+		if workload != "" {
+			msg += " (while running the " + workload + " workload)"
+		}
+		c.Violate("C14", sig, msg, r.Text)
+	}
+	c.Count("race_reports", len(reps))
+	c.Count("race_signatures", len(seen))
+	if harnessOnly > 0 {
+		c.Inconclusive(fmt.Sprintf("%d race report(s) without repository frames (harness race)", harnessOnly))
+	}
 }
 
 func hash(s string) uint32 {
